@@ -202,7 +202,12 @@ def oracle (inputs : List Dictionary) (steps : List (Nat × Nat)) (obs : List Ob
     | ij :: steps, o :: obs =>
       match vals[ij.1]?.join, vals[ij.2]?.join with
       | some a, some b =>
-        if !(decide (Spec.WF a) && decide (Spec.WF b)) then ([], true) else
+        if !(decide (Spec.WF a) && decide (Spec.WF b)) then
+          -- this step is outside the property's domain (an operand is not well-formed): nothing is demanded of it,
+          -- but the steps after it are still judged (each on its own operands)
+          let (rest, _) := go (vals.push (o.res.join)) (ij :: seen) steps obs
+          (rest, true)
+        else
         let again := seen.contains ij
         let nm (s : String) := if again then "merge_again_" ++ s else s
         let expected := Spec.merge a b
